@@ -486,7 +486,7 @@ def shards_c03(tier, seed):  # pylint: disable=unused-argument
             variants = [dict(par, SSL2_MTYPE=0), dict(par, SSL2_MTYPE=1)]
         for idx, vpar in enumerate(variants):
             label = 'selfdelim/%s%s' % (name, '' if len(variants) == 1 else '-%d' % idx)
-            out.append(Shard(MOD, 'selfdelim', label, vpar, 600 if tier == 'thorough' else 120,
+            out.append(Shard(MOD, 'selfdelim', label, vpar, 600 if tier == 'thorough' else 80,
                              bounds='header integers full width (declared length: every value of its field), body '
                                     '<= %d symbolic bytes, suffix <= 2 symbolic bytes' % vpar['B']))
     for name in FRAMES:
@@ -507,13 +507,13 @@ def shards_c03(tier, seed):  # pylint: disable=unused-argument
         data = min(usable, key=len)
         out.append(Shard(MOD, 'selfdelim', 'selfdelim/hs/%s' % cls.__name__,
                          {'FRAME': 'hs_seeded', 'CLASS': name, 'SEED': data.hex(), 'B': 2},
-                         600 if tier == 'thorough' else 150,
+                         600 if tier == 'thorough' else 100,
                          bounds='handshake header length: every 24-bit value; body = accepted %d-byte vector + <= 2 '
                                 'symbolic bytes; suffix <= 2 symbolic bytes' % len(data)))
     blen, slen = (2, 2) if tier == 'thorough' else (1, 1)
     for low in range(0, 128, 16):     # bytes >= 0x80 are never accepted in a banner (ASCII): nothing to compare
         out.append(Shard(MOD, 'banner_selfdelim', 'selfdelim/ssh_banner/%02x' % low,
-                         {'B': blen, 'S': slen, 'LO': low, 'HI': low + 16}, 900 if tier == 'thorough' else 150,
+                         {'B': blen, 'S': slen, 'LO': low, 'HI': low + 16}, 900 if tier == 'thorough' else 100,
                          bounds='"SSH-2.0-a" + <= %d symbolic bytes (first one in %d..%d) + CR LF + <= %d symbolic '
                                 'bytes' % (blen, low, low + 15, slen)))
     return out
